@@ -946,6 +946,19 @@ def main():
                 changed += 1
         if not changed or m >= 16:
             continue
+        # second revision: the index is no longer a constant (read from scratch space)
+        lines2 = open(os.path.join(OUT, e["file"])).read().split("\n")
+        for i in range(len(lines2) - 1):
+            w = lines2[i].split()
+            nxt = lines2[i + 1].split()
+            if len(w) == 2 and w[0] in ("int", "pushint") and w[1].isdigit() and nxt and nxt[0] in ("gtxns", "gtxnsa", "gtxnsas"):
+                lines2[i] = lines2[i].replace(" ".join(w), "load 7", 1)
+        tw2 = "\n".join(lines2)
+        yid = "y%03d" % m
+        with open(os.path.join(OUT, "teal", yid + ".teal"), "w") as f:
+            f.write(tw2)
+        index.append({"id": yid, "file": "teal/%s.teal" % yid, "origin": "twin of %s: %d constant gtxns indices replaced by load 7" % (e["id"], changed), "twin_of": e["id"],
+                      "sha256": hashlib.sha256(tw2.encode()).hexdigest(), "lines": tw2.count("\n")})
         tw = "\n".join(lines)
         wid = "x%03d" % m
         m += 1
